@@ -15,10 +15,16 @@ N(s, u) == [k |-> "num", bits |-> F64OfNumeral(T(s)), unit |-> u, numeral |-> T(
 Chars == {97, 32, 34, 92, 36, 96, 10, 9, 13, 8, 12, 31, 0, 233, 8364, 128512, 39, 127}
 Texts == {<<>>} \cup {<<c>> : c \in Chars}
          \cup {<<92, 34>>, <<36, 123>>, <<92, 117>>, <<34, 34>>, <<97, 10>>, <<128512, 233>>, <<92, 92>>, <<96, 96>>}
+         \* texts that look like literals of this or a neighbouring encoding (Haystack 3 JSON prefixes, Zinc scalars, JSON
+         \* keywords): a string is a string whatever it spells
+         \cup {T("s:x"), T("m:"), T("-:"), T("z:"), T("n:1"), T("r:a"), T("u:x"), T("d:2021-01-15"), T("c:1,2"), T("x:Bin:y"),
+               T("@a"), T("^a"), T("N"), T("T"), T("NA"), T("M"), T("2021-01-15"), T("12:30:00"), T("C(1,2)"), T("1kW"),
+               T("null"), T("true"), T("INF"), T("NaN"), T("{}"), T("[]")}
 UriTexts == {s \in Texts : NoControls(s)} \cup {T("http://a/b?c=d&e#f"), T("a[1]@x;y")}
 
 Units == {<<>>, <<T("m")>>, <<<<176, 70>>>>, <<T("%")>>, <<T("$")>>, <<<<107, 87, 104, 47, 109, 178>>>>, <<T("ft/min")>>}
 PlainNumerals == {"0", "-0", "1", "-1.5", "0.1", "123456789.123", "1000000000000000000000",
+                  "0.30000000000000004", "48.85837009999999", "0.3333333333333333",      \* 16-17 significant digits
                   "9007199254740993", "0.0000001", "-12", "100",
                   \* the edges of the 64-bit integer types (integer fast paths of writers and readers)
                   "9223372036854775807", "9223372036854775808", "18446744073709551615", "18446744073709551616",
@@ -63,13 +69,19 @@ Scalars ==
           DT(2021, 1, 15, 43200, 0, 0, "London"),
           DT(2021, 7, 15, 43200, 0, 3600, "London"),
           DT(2021, 1, 15, 43200, 0, -43200, "GMT+12"),
+          DT(2021, 1, 15, 43200, 250000000, -12600, "St_Johns"),      \* negative offsets with minutes
+          DT(2021, 1, 15, 43200, 0, -34200, "Marquesas"),
+          DT(2021, 6, 1, 34200, 0, 32400, "Japan"),                   \* zone ids without a region
+          DT(2021, 6, 1, 34200, 0, -18000, "EST"),
           DT(2021, 1, 15, 43200, 0, -10800, "Argentina/Buenos_Aires"),   \* three-segment ids keep two segments as their name
           DT(2021, 7, 15, 43200, 0, -18000, "North_Dakota/Center"),
           DT(1999, 12, 31, 86399, 999000000, 0, "UTC"),
           DT(2021, 12, 31, 50400, 0, 36000, "Brisbane")}       \* local date is the next year
     \cup {Coord("0x0000000000000000", "0x0000000000000000"),
           Coord(F64OfNumeral(T("37.545")), F64OfNumeral(T("-77.449"))),
-          Coord(F64OfNumeral(T("-90")), F64OfNumeral(T("180")))}
+          Coord(F64OfNumeral(T("-90")), F64OfNumeral(T("180"))), Coord(F64OfNumeral(T("90")), F64OfNumeral(T("-180"))),
+          Coord(F64OfNumeral(T("37.5458266")), F64OfNumeral(T("-77.4491888"))),         \* more than six fraction digits
+          Coord(F64OfNumeral(T("0.0000004")), F64OfNumeral(T("48.85837009999999")))}
     \cup {List(<<>>), Dict(<<>>)}
 
 a == T("a")
